@@ -42,6 +42,7 @@ COMPR = 'starlark/src/eval/compiler/compr.rs'
 BCSTMT = 'starlark/src/eval/bc/compiler/stmt.rs'
 LISTM = 'starlark/src/values/types/list/methods.rs'
 LISTV = 'starlark/src/values/types/list/value.rs'
+TUPV = 'starlark/src/values/types/tuple/value.rs'
 AMOD = 'starlark/src/eval/bc/compiler/assign_modify.rs'
 BCCALL = 'starlark/src/eval/bc/compiler/call.rs'
 VECMAP = 'starlark_map/src/vec_map.rs'
@@ -192,6 +193,10 @@ MUTANTS = [
     ('strindex', STRT, 'let ind = CharIndex(i.unsigned_abs() as usize);', 'let ind = CharIndex((-i) as usize);', 'at'),
     ('strindex', STRT, 'Ok(heap.alloc(self.as_bytes()[(len_chars - ind).0] as char))', 'Ok(heap.alloc(self.as_bytes()[len_chars.0] as char))', 'at'),
     ('strindex', STRT, 'if ind > len_chars {', 'if ind >= len_chars {', 'C01.str.at.ok_iff'),
+    ('seqindex', TUPV, '        let i = convert_index(index, self.len() as i32)? as usize;\n        Ok(self.content()[i].to_value())', '        let i = convert_index(index, self.len() as i32)? as usize;\n        Ok(self.content()[i / 2].to_value())', 'C01.tuple.at.elem'),
+    ('seqindex', TUPV, '    fn length(&self) -> crate::Result<i32> {\n        Ok(self.len() as i32)', '    fn length(&self) -> crate::Result<i32> {\n        Ok(self.len() as i32 - 1)', 'length'),
+    ('seqindex', TUPV, '    fn to_bool(&self) -> bool {\n        self.len() != 0', '    fn to_bool(&self) -> bool {\n        self.len() > 1', 'C01.tuple.to_bool'),
+    ('seqindex', LISTV, '    fn to_bool(&self) -> bool {\n        !self.0.content().is_empty()', '    fn to_bool(&self) -> bool {\n        self.0.content().len() > 1', 'C01.list.to_bool'),
     ('seqindex', LISTV, '        let i = convert_index(index, self.0.content().len() as i32)? as usize;\n        Ok(self.0.content()[i])', '        let i = convert_index(index, self.0.content().len() as i32 - 1)? as usize;\n        Ok(self.0.content()[i])', 'C01.list.at'),
     ('seqindex', LISTV, '        let i = convert_index(index, self.0.content().len() as i32)? as usize;\n        Ok(self.0.content()[i])', '        let i = convert_index(index, self.0.content().len() as i32)? as usize;\n        Ok(self.0.content()[self.0.content().len() - 1 - i])', 'C01.list.at.elem'),
     ('seqindex', LISTV, '    fn length(&self) -> crate::Result<i32> {\n        Ok(self.0.content().len() as i32)', '    fn length(&self) -> crate::Result<i32> {\n        Ok(self.0.content().len() as i32 + 1)', 'length'),
